@@ -1838,8 +1838,26 @@ fn file_mutations() -> BoxedStrategy<Mutation> {
     .boxed()
 }
 
+/// a ladder of temporary ids over one list: mostly the whole list, often grown to 16-48 items first, so that what each
+/// rung costs adds up
+fn ladder() -> BoxedStrategy<Mutation> {
+    (
+        file_idx(),
+        prop_oneof![3 => Just(0u8), 4 => Just(1u8), 2 => Just(2u8), 1 => Just(3u8)],
+        any::<u16>(),
+        prop_oneof![2 => Just(0u8), 1 => Just(1u8), 2 => Just(2u8), 2 => Just(3u8), 3 => Just(4u8), 3 => Just(5u8)],
+        (prop_oneof![4 => Just(0u16), 1 => any::<u16>()], prop_oneof![4 => Just(0u8), 1 => 2u8..=40]),
+        prop_oneof![5 => Just(0u8), 1 => 1u8..=TEMP_LETTERS.len() as u8],
+        0u8..LADDER_STEPS.len() as u8,
+        prop_oneof![3 => Just(0u8), 1 => 1u8..3],
+    )
+        .prop_map(|(file, list, which, grow, (start, run), letter, step, jitter)| Mutation::JLadder { file, list, which, grow, start, run, letter, step, jitter })
+        .boxed()
+}
+
 fn json_mutation() -> BoxedStrategy<Mutation> {
     prop_oneof![
+        4 => ladder(),
         3 => (file_idx(), idx(), temp_choice()).prop_map(|(file, nth, val)| Mutation::JStr { file, field: Field::Id, nth, val }),
         7 => (file_idx(), 0u8..ID_LISTS.len() as u8, idx(), temp_choice()).prop_map(|(file, k, nth, val)| Mutation::JStr { file, field: Field::IdOf(k), nth, val }),
         2 => (file_idx(), 0u8..ID_LISTS.len() as u8, idx(), str_choice()).prop_map(|(file, k, nth, val)| Mutation::JStr { file, field: Field::IdOf(k), nth, val }),
@@ -1883,8 +1901,46 @@ fn csv_file_idx() -> BoxedStrategy<u16> {
     any::<u16>().boxed()
 }
 
+/// index into SELECTOR_NAMES: the simple kinds, the complex kinds, what is neither
+fn sel_name() -> BoxedStrategy<u8> {
+    prop_oneof![6 => 0u8..6, 3 => 6u8..9, 2 => 9u8..SELECTOR_NAMES.len() as u8].boxed()
+}
+
+/// the SelectorType cell of a row rewritten, the parallel columns following (or deliberately not)
+fn csv_selector() -> BoxedStrategy<Mutation> {
+    (
+        idx(),
+        prop_oneof![4 => Just(false), 1 => Just(true)],
+        prop_oneof![
+            6 => Just(SelEdit::Replace),
+            3 => Just(SelEdit::Head),
+            2 => Just(SelEdit::Prepend),
+            2 => Just(SelEdit::Append),
+            2 => any::<u16>().prop_map(SelEdit::At),
+            2 => Just(SelEdit::DropHead),
+            2 => (0u8..4).prop_map(SelEdit::RepeatHead),
+        ],
+        prop_oneof![
+            2 => proptest::collection::vec(sel_name(), 1..=1),
+            4 => proptest::collection::vec(sel_name(), 2..=3),
+            1 => proptest::collection::vec(sel_name(), 4..=6),
+            // one kind repeated
+            1 => (sel_name(), 2usize..=4).prop_map(|(k, n)| vec![k; n]),
+        ],
+        prop_oneof![
+            5 => Just(SelCols::Repair),
+            2 => Just(SelCols::Keep),
+            3 => (prop_oneof![1 => Just(0u8), 2 => 1u8..128], 0u8..5).prop_map(|(cols, how)| SelCols::RepairThen { cols, how }),
+        ],
+        any::<u16>(),
+    )
+        .prop_map(|(row, fresh, edit, types, cols, salt)| Mutation::CsvSel { row, fresh, edit, types, cols, salt })
+        .boxed()
+}
+
 fn csv_mutation() -> BoxedStrategy<Mutation> {
     prop_oneof![
+        6 => csv_selector(),
         12 => (csv_file_idx(), idx(), idx(), cell_choice()).prop_map(|(file, row, col, val)| Mutation::Cell { file, row, col, val }),
         1 => (csv_file_idx(), idx()).prop_map(|(file, row)| Mutation::RowDup { file, row }),
         1 => (csv_file_idx(), idx()).prop_map(|(file, row)| Mutation::RowDel { file, row }),
@@ -2092,7 +2148,7 @@ impl Property for C19 {
         "C19"
     }
     fn rule(&self) -> String {
-        "case = a valid document set written from the final store of a generated history (STAM JSON: one document through from_str / from_file, resources and datasets in @include stand-off files, an included sub-store; STAM CSV store; CBOR; plus annotate_from_file, AnnotationBuilder::from_json_str + annotate, AnnotationDataSet::from_file, TextResource::from_file) with 1-3 mutations applied: structured JSON edits on an order-preserving tree (delete / duplicate / reorder / retype a member; numbers 0, -1, 2^31, 2^63, isize::MIN, 2^64, 10^30; strings replaced by ids of other items (dangling, forward and cyclic references, duplicate ids), by temporary ids !A<n> !D<n> !K<n> with n from 0 to 10^30 or relative to the list length, by file names (missing, own file, other file); added members; self- and mutually-including files), CSV cell / row / column edits (unknown and mismatched selector kinds, ';' lists of unequal length, empty cells, huge offsets), CBOR edits on a generic decoded tree (handles and lengths changed, elements deleted / duplicated / swapped / retyped; lying length prefixes: the definite-length headers of the document are enumerated with their path class - chain of container kinds, record positions kept, list positions not - and one of them, chosen by index over all headers or over the headers of one class, announces the real length +-d, 0 .. 2^16 .. 2^31 .. 2^32 .. 2^63 .. u64::MAX, the real length x 2^k or an indefinite length, the rest of the file unchanged) and byte edits (truncate, flip, splice, insert). Strings put into ids, references, keys, values, file names and CSV cells also come from a hostile alphabet: a prefix the library tests for ('!', '!A', '_:', 'http', 'file://', '#', ';' ...) followed by 0-90 characters of 1-4 bytes in upper / lower / title case, digits and marks, optionally a number, optionally stretched beyond 120 / 256 / 1024 / 4096 bytes; in CSV also before and after the ';' of a list; and one mutation renames every identifier of the document set consistently to such a string + id + such a string (the documents still load). Or a string for Cursor / Type / SelectorKind / DataFormat::try_from, Offset and Cursor JSON, AnnotationBuilder::from_json_str: valid spellings edited, and long inputs dense in multi-byte characters (every free string of a JSON seed replaced, a leading member of up to 1600 characters, 0-3 bytes of shift) that are malformed by the JSON mutators, by a cut or a stray token at a character boundary; enumerated: every seed document made dense and cut at every character boundary, and with a leading string of 60 / 400 / 1500 three-byte characters shifted by 0, 1, 2 bytes (every byte offset inside it falls inside a character for two of the three shifts) cut, with a member missing or retyped. Or a raw fuzz input. Every case runs in a child process with a counting allocator. Oracle: no panic; the child survives (no stack overflow, no failed allocation); peak live bytes during the load <= 64 MiB + 4096 x input bytes; allocation calls <= 10^6 + 10^3 x input bytes; if the loader returns Ok: the forward references of the store are sound (every handle names a live item, annotation selectors point backwards), then full observation, the model-free C01-C03 consistency battery, to_json_string and five queries complete without panic and find the store consistent. Whatever goes wrong when a store returned by the CBOR reader is used (it validates nothing) is grouped under the signature prefix cbor-unvalidated|. Non-trivial = the mutated documents differ in meaning from their parents and every changed file still parses syntactically in its format (so the loader gets past syntax); for strings: not one of the valid spellings. Distinct = distinct case JSON.".into()
+        "case = a valid document set written from the final store of a generated history (STAM JSON: one document through from_str / from_file, resources and datasets in @include stand-off files, an included sub-store; STAM CSV store; CBOR; plus annotate_from_file, AnnotationBuilder::from_json_str + annotate, AnnotationDataSet::from_file, TextResource::from_file) with 1-3 mutations applied: structured JSON edits on an order-preserving tree (delete / duplicate / reorder / retype a member; numbers 0, -1, 2^31, 2^63, isize::MIN, 2^64, 10^30; strings replaced by ids of other items (dangling, forward and cyclic references, duplicate ids), by temporary ids !A<n> !D<n> !K<n> with n from 0 to 10^30 or relative to the list length, by file names (missing, own file, other file); a ladder of temporary ids !<L><k x step + jitter> laid over successive items (mostly all) of one list of annotations, data or keys, step from {1, 2, 1000, 60000, 65535, 65536, 65537, 10^6}, the list often grown to 16-48 items first by repeating its items; added members; self- and mutually-including files), CSV cell / row / column edits (unknown and mismatched selector kinds, ';' lists of unequal length, empty cells, huge offsets) and a column-aware rewrite of a row (or a new row) of the annotations table: the SelectorType cell becomes a list of 1-6 names drawn from all simple kinds, all complex kinds, unknown, lower-case and empty names (replaced, head retyped, head dropped, prepended, appended, a later position retyped, head repeated), while the parallel Target* / *Offset columns are rebuilt as ';' lists of the same length with values that exist in the document where the kind at that position reads the column, or are left alone, or get another length (shorter, longer, collapsed, emptied) in some or all columns, CBOR edits on a generic decoded tree (handles and lengths changed, elements deleted / duplicated / swapped / retyped; lying length prefixes: the definite-length headers of the document are enumerated with their path class - chain of container kinds, record positions kept, list positions not - and one of them, chosen by index over all headers or over the headers of one class, announces the real length +-d, 0 .. 2^16 .. 2^31 .. 2^32 .. 2^63 .. u64::MAX, the real length x 2^k or an indefinite length, the rest of the file unchanged) and byte edits (truncate, flip, splice, insert). Strings put into ids, references, keys, values, file names and CSV cells also come from a hostile alphabet: a prefix the library tests for ('!', '!A', '_:', 'http', 'file://', '#', ';' ...) followed by 0-90 characters of 1-4 bytes in upper / lower / title case, digits and marks, optionally a number, optionally stretched beyond 120 / 256 / 1024 / 4096 bytes; in CSV also before and after the ';' of a list; and one mutation renames every identifier of the document set consistently to such a string + id + such a string (the documents still load). Or a string for Cursor / Type / SelectorKind / DataFormat::try_from, Offset and Cursor JSON, AnnotationBuilder::from_json_str: valid spellings edited, and long inputs dense in multi-byte characters (every free string of a JSON seed replaced, a leading member of up to 1600 characters, 0-3 bytes of shift) that are malformed by the JSON mutators, by a cut or a stray token at a character boundary; enumerated: every seed document made dense and cut at every character boundary, and with a leading string of 60 / 400 / 1500 three-byte characters shifted by 0, 1, 2 bytes (every byte offset inside it falls inside a character for two of the three shifts) cut, with a member missing or retyped. Or a raw fuzz input. Every case runs in a child process with a counting allocator. Oracle: no panic; the child survives (no stack overflow, no failed allocation); peak live bytes during the load <= 64 MiB + 4096 x input bytes; allocation calls <= 10^6 + 10^3 x input bytes; if the loader returns Ok: the forward references of the store are sound (every handle names a live item, annotation selectors point backwards), then full observation, the model-free C01-C03 consistency battery, to_json_string and five queries complete without panic and find the store consistent. Whatever goes wrong when a store returned by the CBOR reader is used (it validates nothing) is grouped under the signature prefix cbor-unvalidated|. Non-trivial = the mutated documents differ in meaning from their parents and every changed file still parses syntactically in its format (so the loader gets past syntax); for strings: not one of the valid spellings. Distinct = distinct case JSON.".into()
     }
     fn assumptions(&self) -> Vec<String> {
         vec![
@@ -2152,6 +2208,20 @@ impl Property for C19 {
                 "mut:json.tempid",
                 "mut:json.include",
                 "mut:csv.cell",
+                "mut:csv.selector-list",
+                "sel:simple-head+all-simple-after",
+                "sel:complex-head+all-simple-after",
+                "sel:complex-head-alone",
+                "sel:complex-in-later-position",
+                "sel:unknown-or-empty-entry",
+                "selcols:same-length",
+                "selcols:other-length",
+                "mut:json.tempid-ladder",
+                "ladder:annotations",
+                "ladder:data",
+                "ladder:keys",
+                "ladder:rungs-16+",
+                "ladder:step-65536",
                 "mut:cbor.integer",
                 "outcome:err",
                 "mut:cbor.length-prefix",
